@@ -234,6 +234,10 @@ def _worker(hname, cfgs, opts, tasks, results, widx, stop_flags=None, path_count
                         m = E.any_model() if getattr(hmod, "HANG_IS_VIOLATION", False) else None
                         if m is not None:
                             cx._record("hang", "path exceeded %ss wall" % opts["path_wall_s"], m)
+                            if stop_flags is not None and not cfg.get("expect_fail"):
+                                # one hanging path is the finding; every further path of this configuration would burn the same
+                                # budget again (seed S-C01-10 made the whole check run past 25 minutes)
+                                stop_flags[ci] = 1
                         if not getattr(hmod, "HANG_IS_VIOLATION", False) and stop_flags is not None:
                             # a call of the code under test that does not return is C01's business; here the configuration is
                             # given up at once (every further path of it would burn the same budget) and listed as not covered
@@ -284,6 +288,8 @@ def _worker(hname, cfgs, opts, tasks, results, widx, stop_flags=None, path_count
                                 if key not in st.cands:
                                     st.cands[key] = {"label": f0[0], "detail": "%s  [found by replaying on the unshimmed code a path the solver had proved in exact arithmetic]" % (f0[1],),
                                                      "inputs": inputs, "exc": key[1], "nice": True, "count": 1, "maybe_infeasible": False}
+                            elif res.get("ended_by_exception") and not res.get("truncated"):
+                                why = "the unshimmed code raised an exception on inputs of a path that ran through symbolically (a machine-arithmetic effect?)"
                             else:
                                 why = _observations_agree(E, getattr(cx, "obs", []), res["observations"], m)
                             if why is None:
@@ -418,7 +424,10 @@ def run_harness(hname, tier="quick", seed=0, only=None):
     if budget:
         opts["deadline"] = t0 + budget
     order = sorted(range(len(cfgs)), key=lambda i: -cfgs[i].get("cost", 1))
-    stall_s = max(300.0, 20.0 * opts["timeout_ms"] / 1000.0)
+    # the path watchdog counts CPU seconds of the worker, the heartbeat is wall time: on a loaded machine a path that is allowed
+    # 150 CPU-s may be silent for several times that long (seed S-C01-10: a hanging call under three concurrent checks made the
+    # supervisor restart the exploration again and again)
+    stall_s = max(300.0, 20.0 * opts["timeout_ms"] / 1000.0, 4.0 * opts["path_wall_s"] + 120.0)
     restarts = []
 
     def explore_once():
